@@ -309,7 +309,7 @@ def bounded(run):
         rec = by_id[ident]
         if nlab or G.n_stereo(rec):
             continue
-        inv = (tuple(sorted(rec['atoms'])), tuple(sorted(o for *_, o in rec['bonds'])))
+        inv = (tuple(sorted(map(repr, rec['atoms']))), tuple(sorted(o for *_, o in rec['bonds'])))
         buckets.setdefault(inv, []).append((ident, s0))
     from oracles.o01_gaps import gaps
     for inv, members in buckets.items():
